@@ -248,7 +248,7 @@ def rule_schema(ctx: Ctx) -> None:
     # keyed tables: INSERT OR IGNORE
     for fi in insert_functions(ctx):
         if fi.cls is idb:
-            for e in calls(fi, "self.execute"):
+            for e in [c for c in calls(fi) if (chain(c.func) or "").startswith("self.") and c.args and re.match(r"\s*INSERT", _sql_of(c, fi), re.I)]:
                 s = _sql_of(e, fi)
                 ctx.check(bool(re.match(r"\s*INSERT\s+OR\s+IGNORE", s, re.I)), "schema-reopen", fi, e, f"{fi.name}: INSERT OR IGNORE on a keyed table",
                           f"{fi.name}: a duplicate insert raises IntegrityError (and the following commit is skipped)")
@@ -263,7 +263,11 @@ def rule_schema(ctx: Ctx) -> None:
         fdt = obj.methods["from_database_tuple"]
         ret = [r for r in walk_no_nested(tdt.node) if isinstance(r, ast.Return)][0]
         fields = [norm(e).replace("self.", "") for e in (ret.value.elts if isinstance(ret.value, ast.Tuple) else [ret.value])]
-        e = calls(fi, "self.execute")[0]
+        writes = [c for c in calls(fi) if (chain(c.func) or "").startswith("self.") and c.args and re.match(r"\s*INSERT", _sql_of(c, fi), re.I)]
+        if not writes:
+            ctx.check(False, "schema-reopen", fi, fi.node, f"{ins} issues an INSERT statement", f"{ins} has no recognisable INSERT statement")
+            continue
+        e = writes[0]
         cols = _insert_columns(_sql_of(e, fi))
         binds = arg(e, 1)
         bnames = [norm(b) for b in binds.elts] if isinstance(binds, ast.Tuple) else []
